@@ -52,6 +52,21 @@ func (c compositeMatcher) Matches(request *heimdall.Request, keys, values []stri
 	return nil
 }
 
+// anyOfMatcher is satisfied, if at least one of its matchers is satisfied.
+type anyOfMatcher []RouteMatcher
+
+func (a anyOfMatcher) Matches(request *heimdall.Request, keys, values []string) error {
+	var err error
+
+	for _, matcher := range a {
+		if err = matcher.Matches(request, keys, values); err == nil {
+			return nil
+		}
+	}
+
+	return err
+}
+
 type schemeMatcher string
 
 func (s schemeMatcher) Matches(request *heimdall.Request, _, _ []string) error {
@@ -155,7 +170,7 @@ func createMethodMatcher(methods []string) (methodMatcher, error) {
 	return slicex.Subtract(methods, tbr), nil
 }
 
-func createHostMatcher(hosts []config.HostMatcher) (RouteMatcher, error) {
+func createHostMatcher(hosts []config.HostMatcher) (compositeMatcher, error) {
 	matchers := make(compositeMatcher, len(hosts))
 
 	for idx, host := range hosts {
